@@ -114,6 +114,15 @@ def Rng.next (r : Rng) : UInt32 × Rng :=
   | .mersenne => let (v, s) := MTP.next P32 r.st; (v, { r with st := s })
   | .fast => let x := r.x * 69069 + 1; (x, { r with x := x })
 
+/-- test hook of the correspondence harness (not part of the library): overwrite the table word that the next draw
+    will temper; if the table is exhausted one draw is made first so that both sides refill identically -/
+def Rng.pokeRaw (r : Rng) (w : UInt32) : Rng :=
+  match r.kind with
+  | .mersenne =>
+    let r1 := if r.st.mti ≥ 624 then (r.next).2 else r
+    { r1 with st := { r1.st with mt := r1.st.mt.setIfInBounds r1.st.mti w } }
+  | .fast => r
+
 /-- the accept/reject map of `esl_rnd_Roll`: `some v` if the raw word is accepted -/
 def rollWord (n : Nat) (x : Nat) : Option Nat :=
   let factor := (2^32 - 1) / n
